@@ -228,3 +228,18 @@ def _known_shift(skeleton: str, keys) -> bool:
         elif k == "P" and seen:
             return True
     return False
+
+
+def _known_shift_args(args) -> bool:
+    """recorded regions on plain argument lists: numeric-named before positional, name with a whitespace run, numeric name > 1000"""
+    seen = False
+    for a in args:
+        if "=" in a:
+            k = a.split("=")[0].strip()
+            if _inner_ws_run(a.split("=")[0]) or _big_numeric(a.split("=")[0]):
+                return True
+            if k.isdecimal() and int(k) > 0:
+                seen = True
+        elif seen:
+            return True
+    return False
